@@ -14,11 +14,11 @@ ID = "C19"
 RULE = (
     "Histories as data: Hypothesis draws an irregular cell or a network of 2-3 cells and a list of up to 12 (quick) / 30 "
     "(thorough) late-bound operations out of insert, delete_channel, set, set_ncomp, add_to_group, record, delete_recordings, "
-    "stimulate, clamp, delete_stimuli, delete_clamps, make_trainable, delete_trainables, connect, init_states (plus setting and "
-    "recording synaptic quantities), each on a drawn view (whole module or a row subset); targets are fractions resolved against "
+    "stimulate, clamp, delete_stimuli, delete_clamps, make_trainable, delete_trainables, connect, init_states (plus setting, "
+    "recording and making trainable synaptic parameters and states through edge views, and delete_trainables through edge views), each on a drawn view (whole module or a row subset); targets are fractions resolved against "
     "the module's current size, so every op is well-formed when it runs. After every accepted op: (i) consistency invariants of "
     "all public tables, (ii) frame condition - the diff of a deep snapshot must lie inside the op's declared footprint, (iii) "
-    "postconditions of deletions (delete after insert restores the table; delete_* removes exactly the viewed entries). At the "
+    "postconditions of deletions (delete after insert restores the table; delete_* removes exactly the viewed entries and keeps all others with their values). At the "
     "end integrate runs for 4 steps and every recording is compared with the reference simulator R3 built from the displayed "
     "tables. The thorough tier additionally enumerates ALL sequences of length <= 3 over 14 fixed op templates on a fixed 3-branch "
     "cell and a fixed 2-cell network. Non-trivial: a deletion after a matching insertion, or >= 3 different op kinds; "
